@@ -1381,6 +1381,8 @@ func (p *Printer) str(t *Term) string {
 		s = fmt.Sprintf("((_ %s %d) %s)", t.Op, t.P[0], p.str(t.Args[0]))
 	case "rotl":
 		s = fmt.Sprintf("((_ rotate_left %d) %s)", t.P[0], p.str(t.Args[0]))
+	case "int2bv":
+		s = fmt.Sprintf("((_ int2bv %d) %s)", t.P[0], p.str(t.Args[0]))
 	case "constarr":
 		s = fmt.Sprintf("((as const %s) %s)", t.S.str, p.str(t.Args[0]))
 	case "forall", "exists":
